@@ -11,7 +11,9 @@ BATCHES_PER_SCHEMA = 3
 MIN_NONTRIVIAL = 30
 RULE = ("case = one engine (recording query-cache decorator) x %d batches of 2-5 requests: same document with different "
         "variables / worlds / contexts / operation names, different documents, requests with injected failures (incl. the "
-        "same error *instance* raised in several requests), syntactically broken and invalid documents. Each request "
+        "same error *instance* raised in several requests), Boolean-flipped twins of one request, syntactically broken "
+        "documents and rule-violating rewrites of the base document (C07's catalogue, same fragment / operation names); "
+        "35%% of the engines use a documentation-style error coercer that writes into the error it is handed. Each request "
         "is first answered alone, then all of the batch are started together under one controlled scheduler that "
         "interleaves their suspension points ACROSS requests (exhaustive DFS over cross-request completion orders up to "
         "a cap, then LIFO+random), then alone again, and finally on a freshly built engine. Oracle: every concurrent, "
